@@ -52,24 +52,34 @@ def mbu (m : Match E L) : F32 :=
 def chaosPercents (m : Match E L) : F32 := Fl.mul m.chaos (Fl.ofNat fmt32 100)
 def coherencePercents (m : Match E L) : F32 := Fl.mul m.coherence (Fl.ofNat fmt32 100)
 
-/-- `impl Ord for CharsetMatch` -/
-def cmp (a b : Match E L) : Ordering :=
+/-- the three numbers `Ord for CharsetMatch` looks at -/
+structure Key where
+  chaos : F32
+  coh   : F32
+  mbu   : F32
+  deriving DecidableEq, Repr
+
+def key (m : Match E L) : Key := ⟨m.chaos, m.coherence, m.mbu⟩
+
+/-- `impl Ord for CharsetMatch`, as a function of the keys -/
+def cmpKey (a b : Key) : Ordering :=
   let messDiff := Fl.abs (Fl.sub a.chaos b.chaos)
-  let ca := a.coherence
-  let cb := b.coherence
-  let cohDiff := Fl.abs (Fl.sub ca cb)
+  let cohDiff := Fl.abs (Fl.sub a.coh b.coh)
   if Fl.lt messDiff (F32.lit 1 100) then
-    if Fl.gt cohDiff (F32.lit 2 100) then Fl.ocmp cb ca
+    if Fl.gt cohDiff (F32.lit 2 100) then Fl.ocmp b.coh a.coh
     else
-      let ma := a.mbu
-      let mb := b.mbu
-      let d := Fl.abs (Fl.sub ma mb)
-      if Fl.gt d F32.epsilon then Fl.ocmp mb ma
+      let d := Fl.abs (Fl.sub a.mbu b.mbu)
+      if Fl.gt d F32.epsilon then Fl.ocmp b.mbu a.mbu
       else Fl.ocmp a.chaos b.chaos
   else Fl.ocmp a.chaos b.chaos
 
+/-- `impl Ord for CharsetMatch` -/
+def cmp (a b : Match E L) : Ordering := cmpKey a.key b.key
+
 /-- `is_less` handed to `sort_unstable` -/
 def lt (a b : Match E L) : Bool := cmp a b == .lt
+
+def ltKey (a b : Key) : Bool := cmpKey a b == .lt
 
 end Match
 
